@@ -906,6 +906,7 @@ type Script struct {
 	UFApps  []*Term
 	defFun  bool
 	nodeCnt int
+	hasArith bool // symbolic multiplication/division present
 }
 
 func NewScript(b *Builder, defineFun bool) *Script {
@@ -954,6 +955,10 @@ func (s *Script) Define(root *Term) {
 
 func (s *Script) emit(t *Term) {
 	s.nodeCnt++
+	switch t.op {
+	case OpMul, OpUdiv, OpUrem, OpSdiv, OpSrem:
+		s.hasArith = true
+	}
 	if t.op == OpVar {
 		fmt.Fprintf(&s.sb, "(declare-const %s %s)\n", t.name, sortStr(t.w))
 		s.Vars = append(s.Vars, t)
